@@ -11,7 +11,7 @@
  *   CX <k> <t>         __cyg_profile_func_exit(f<k>) at time t               -> "CX"
  *   EA <k> <t> <rdi> <rsi> <rdx> <rcx> <r8> <r9> [stack words...]
  *                      -pg entry with a synthetic register frame; a word "@S<i>" is the address
- *                      of string <i>, "@BAD" an unmapped address                -> like E
+ *                      of string <i>, "@BAD" an unmapped address, "@F<k>" the address of f<k>                -> like E
  *   XR <t> <rax> [<rdx>]   exit with return value                              -> like X
  *   STR <i> <hex>      define string i (NUL appended)
  *   STATE              filter state of the current thread -> "S in out depth max time size idx ridx enabled"
@@ -20,6 +20,13 @@
  *   FORK               fork(); the child continues with the script, the parent waits and exits
  *   TIME <t>           set the fake clock only
  *   VAL <name> <v>     set an interposed value source (pagefault, cpu, statm, var)
+ *   ARGFILL <d> <byte> <n> / ARGDUMP <d> <n>   (C09) fill / hex-dump the per-frame argument buffer of
+ *                      frame mtd.idx+d (n bytes, may span the following frames' buffers)
+ *   ADDR               (C09) -> "ADDR <address of f0> <the @BAD address>"
+ *   FRAMESET <d> <i> <w>  (C09) word i of the fake stack frame of call depth d := w
+ *   SADDR <i>          (C09) -> "SADDR <address of string/object i>"
+ *   OBJ <i> <word>...  (C09) define object i as these 8-byte words (numbers, @S<j>, @BAD)
+ *   DUMPRAW            (C09) the raw byte stream of this thread's shm buffers -> "DUMPRAW <hex>"
  *   QUIT
  *
  * A call whose entry returned -1 (not hooked) must not be followed by X for that call:
@@ -119,7 +126,7 @@ struct drv {
 	int done;
 };
 static struct drv drv[16];
-static char *strings[64];
+static char *strings[4096];
 static void *bad_page;
 static char session[64];
 
@@ -135,6 +142,8 @@ static unsigned long parse_word(const char *w)
 			return (unsigned long)bad_page + 16;
 		if (w[1] == 'S')
 			return (unsigned long)strings[atoi(w + 2)];
+		if (w[1] == 'F') /* C09: start address of f<k> */
+			return (unsigned long)funcs[atoi(w + 2) % NFUNC];
 	}
 	return strtoul(w, NULL, 0);
 }
@@ -362,6 +371,72 @@ static void do_op(struct drv *dv, char *line)
 			verif_watched_var = v;
 		printf("VAL\n");
 	}
+#ifndef DISABLE_MCOUNT_FILTER
+	else if (!strcmp(op, "ARGFILL") || !strcmp(op, "ARGDUMP")) {
+		/* C09: ARGFILL <delta> <byte> <n>  fill n bytes of the per-frame argument buffers starting at
+		 *      frame (mtd.idx + delta) with <byte>;  ARGDUMP <delta> <n>  hex dump of the same range
+		 *      -> "ARGDUMP <flags of that frame> <hex>" */
+		int delta = 0, a = 0, b = 0;
+		long fr;
+		sscanf(line, "%*s %d %d %d", &delta, &a, &b);
+		fr = (long)mtd.idx + delta;
+		if (!mtd.argbuf || fr < 0) {
+			printf("%s -\n", op);
+		}
+		else if (op[3] == 'F') {
+			memset((char *)mtd.argbuf + fr * ARGBUF_SIZE, a, b);
+			printf("ARGFILL\n");
+		}
+		else {
+			unsigned char *p = (unsigned char *)mtd.argbuf + fr * ARGBUF_SIZE;
+			int i;
+			printf("ARGDUMP %lu ", (unsigned long)mtd.rstack[fr].flags);
+			for (i = 0; i < a; i++)
+				printf("%02x", p[i]);
+			printf("\n");
+		}
+	}
+#endif
+	else if (!strcmp(op, "FRAMESET")) {
+		/* C09: FRAMESET <depth> <index> <word>: word <index> of the fake stack frame used at call depth <depth> */
+		int d = 0, i = 0;
+		char w[64] = "0";
+		sscanf(line, "%*s %d %d %63s", &d, &i, w);
+		if (d >= 0 && d < MAXDEPTH && i >= 0 && i < FRAME_WORDS)
+			dv->frames[d][i] = parse_word(w);
+		printf("FRAMESET\n");
+	}
+	else if (!strcmp(op, "ADDR")) {
+		/* C09: addresses the driver needs to build a synthetic data directory / the model's inputs */
+		printf("ADDR %lu %lu\n", (unsigned long)f0, (unsigned long)bad_page + 16);
+	}
+	else if (!strcmp(op, "DUMPRAW")) {
+		/* C09: the exact byte stream this thread has written (all its shm buffers, in order) */
+		int idx;
+		if (!session[0])
+			find_session();
+		printf("DUMPRAW ");
+		for (idx = 0;; idx++) {
+			char name[128];
+			int fd;
+			unsigned i;
+			struct stat st;
+			struct mcount_shmem_buffer *b;
+			snprintf(name, sizeof(name), "/dev/shm/uftrace-%s-%d-%03d", session, dv->tid, idx);
+			fd = open(name, O_RDONLY);
+			if (fd < 0)
+				break;
+			fstat(fd, &st);
+			b = mmap(NULL, st.st_size, PROT_READ, MAP_SHARED, fd, 0);
+			close(fd);
+			if (b == MAP_FAILED)
+				break;
+			for (i = 0; i < b->size; i++)
+				printf("%02x", (unsigned char)b->data[i]);
+			munmap(b, st.st_size);
+		}
+		printf("\n");
+	}
 	else
 		printf("? %s\n", op);
 }
@@ -466,6 +541,25 @@ int main(void)
 			strings[i][len] = 0;
 			(void)n;
 			printf("STR\n");
+			continue;
+		}
+		if (!strncmp(line, "SADDR ", 6)) {
+			/* C09: address of string/object i */
+			printf("SADDR %lu\n", (unsigned long)strings[atoi(line + 6)]);
+			continue;
+		}
+		if (!strncmp(line, "OBJ ", 4)) {
+			/* C09: OBJ <i> <word> ...  object i = these 8-byte words (words as in EA: numbers, @S<j>, @BAD) */
+			char *save, *tok;
+			unsigned long *obj = calloc(16, sizeof(*obj));
+			int i, n = 0;
+			tok = strtok_r(line, " \n", &save);
+			tok = strtok_r(NULL, " \n", &save);
+			i = atoi(tok);
+			while ((tok = strtok_r(NULL, " \n", &save)) != NULL && n < 16)
+				obj[n++] = parse_word(tok);
+			strings[i] = (char *)obj;
+			printf("OBJ\n");
 			continue;
 		}
 		if (!strncmp(line, "TEND", 4)) {
